@@ -156,6 +156,14 @@ func runC04(c *Ctx) {
 	for _, unit := range []string{"> ", "- ", "1. ", "[", "*a ", "_a ", "<a ", "`", "![", "**", "> - ", "(", "[a](", "\\", "&", "<!--", "  "} {
 		for _, tail := range []string{"", "a", "a\n", "]", "\n\n"} {
 			one(0, "deep", []byte(strings.Repeat(unit, depth)+tail))
+			// the same run inside a paragraph (a line of backticks or tildes alone would be a code fence)
+			one(0, "deep", []byte("x "+strings.Repeat(unit, depth)+tail))
+		}
+		// every run length around small powers of two and the parser's table sizes
+		if unit == "`" || unit == "*" || unit == "[" || unit == "_a " {
+			for n := 60; n <= 140; n++ {
+				one(0, "deep", []byte("x "+strings.Repeat(unit, n)+" y\n"))
+			}
 		}
 		var sb strings.Builder
 		for d := 0; d < depth/20; d++ {
